@@ -236,9 +236,31 @@ def check_program(env, prog, label, ndata, std):
                     if isinstance(relaxed_t.deser(d, cx2), Ok):
                         feats = {"kind": "schema-accepts-deserialize-rejects", "explained_by": "mapping-key-constraints-not-in-schema"}
                 except (Unspecified, RecursionError):
-                    pass
+                    # the model abstains on this datum for an unrelated reason (e.g. multipleOf on a float): same defect model on
+                    # the schema side -- close every object that only has patternProperties and see whether the datum is then rejected
+                    try:
+                        closed = jo.make_validator(close_pattern_objects(schema))
+                        if not jo.is_valid(closed, d) and set(feats.get("deserialize_errs", [])) <= {"pattern"}:
+                            feats = {"kind": "schema-accepts-deserialize-rejects", "explained_by": "mapping-key-constraints-not-in-schema"}
+                    except Exception:
+                        pass
         env.violation(feats, wit)
     env.count("programs")
+
+
+def close_pattern_objects(schema):
+    """copy of the schema where an object carrying patternProperties and no additionalProperties keyword is closed (what a key
+    pattern means for deserialize)"""
+    def walk(x):
+        if isinstance(x, list):
+            return [walk(e) for e in x]
+        if not isinstance(x, dict):
+            return x
+        out = {k: walk(v) for k, v in x.items()}
+        if isinstance(out.get("patternProperties"), dict) and "additionalProperties" not in out and "properties" not in out:
+            out["additionalProperties"] = False
+        return out
+    return walk(json.loads(json.dumps(schema, default=str)))
 
 
 class _OpenPatternMap:
